@@ -257,13 +257,14 @@ macro_rules! merge_layout {
 //@ functions: frequencies::ReversePurgeItemIter::next
 //@ unwind: 10
 //@ stubs: hash_item -> symbolic home table; select_nth_unstable -> reference model
-//@ bounds: self and other are size-8 sketches in the occupancy layouts of the instance (self: 3 or 6 keys; other: no active key - the state an all-equal purge leaves, with stream_weight > 0 and offset > 0 - or 1 key); all keys, home slots, counters, offsets and ghost true counts symbolic
+//@ bounds: self and other are size-8 sketches in the occupancy layouts of the instance (self: 3 keys; other: no active key - the state an all-equal purge leaves, with stream_weight > 0 and offset > 0); all keys, home slots, counters, offsets and ghost true counts symbolic
 //@ assumes: both operands satisfy the sketch invariant with their own ghost true counts (same hash function)
 //@ replay_stub: frequencies/reverse_purge_item_hash_map.rs | fn hash_item<T: Hash>(item: &T) -> u64 { | return self::verif_kani_frequencies_map::verif_hash_item(item);
 //@ desc: merge(other): for every key lb <= t_self + t_other <= ub, total_weight = sum of both, ub-lb <= maximum_error <= N/3, capacity respected, other unchanged
 merge_layout_nopurge!(c07_merge_step_3_purged, vm::LAYOUT_3, vm::LAYOUT_0);
-merge_layout_nopurge!(c07_merge_step_3_one, vm::LAYOUT_3, vm::LAYOUT_1);
-merge_layout!(c07_merge_step_6_one, vm::LAYOUT_6_CLUSTERS, vm::LAYOUT_1);
+// (instances with a one-key argument were removed: with keys named in slot order the key 0 of both operands
+// would need two different home slots - the harness was vacuous, which its cover reported; the one-key
+// argument is covered by the abstract-map family c07_sketch_merge_one_key)
 //@ endfamily: x
 
 //@ props: C07
